@@ -94,7 +94,7 @@ def keStep (st : KeSt) (ops : List String) (_impl : String) : KeSt × String :=
     | .initHello e _, .initHello _ h => showMsg st (some (.initHello e h))
     | _, _ => (st, "bad-op")
   | ["c-new", cid, key, acc] =>
-    let c : Chan := { key := natArg key, accept := parseAccept acc, rejectAfter := bigInterval, keepAlive := bigInterval }
+    let c : Chan := { key := natArg key, accept := parseAccept acc, rejectAfter := bigInterval, keepAlive := bigInterval, hsTimeout := bigInterval }
     (st.putChan (natArg cid) c, "ok")
   | ["c-deliver", cid, idx, now, eph] =>
     match st.chans.lookup (natArg cid) with
@@ -124,10 +124,10 @@ def keStep (st : KeSt) (ops : List String) (_impl : String) : KeSt × String :=
       let m := "hello=-"
       (st, m ++ " " ++ chanObs c')
     | none => (st, "bad-op")
-  | ["c-hs", cid] =>
+  | ["c-hs", cid, now] =>
     match st.chans.lookup (natArg cid) with
     | some c =>
-      let (c', outs) := c.onHandshake
+      let (c', outs, _) := c.onHandshakeAt (natArg now)
       let st := st.putChan (natArg cid) c'
       let (st, is) := outs.foldl (fun (acc : KeSt × List String) w =>
         let (st, i) := acc.1.intern w; (st, acc.2 ++ [toString i])) (st, [])
